@@ -17,7 +17,7 @@ def sh(cmd, **kw):
 def main():
     ids = sys.argv[1:] or sorted(os.listdir(SEEDED))
     scratch = tempfile.mkdtemp(prefix="seedtest")
-    env = dict(os.environ, VERIF_EVIDENCE_DIR=os.path.join(scratch, "ev"), VERIF_REPLAY_DIR=os.path.join(scratch, "rp"))
+    env = dict(os.environ, VERIF_DEV_NO_PROOFS="1", VERIF_EVIDENCE_DIR=os.path.join(scratch, "ev"), VERIF_REPLAY_DIR=os.path.join(scratch, "rp"))
     results = {}
     try:
         for sid in ids:
